@@ -9,7 +9,8 @@ inductive WOut | ok | timeout | hard | closed
 deriving DecidableEq, Repr
 
 /-- one `conn.Write` call: how many bytes are accepted at most, and the outcome.
-`ok` accepts everything offered (io.Writer contract: a short write has an error). -/
+`ok` accepts everything offered (io.Writer contract: a short write has an error); an error outcome
+accepts strictly less than what was offered (assumption A-conn: all bytes taken means success). -/
 structure WPol where
   accept : Nat
   out : WOut
@@ -32,7 +33,8 @@ def WConn.write (c : WConn) (p : Bytes) : WConn × Nat × WOut :=
     | .ok => ({ policy := rest, log := c.log ++ p, writes := c.writes + 1 }, p.length, .ok)
     | .gate => (c, 0, .gate)    -- nothing happens until the gate opens; the entry stays
     | o =>
-      let n := min e.accept p.length
+      -- A-conn: a Write that reports an error accepted fewer bytes than it was given
+      let n := min e.accept (p.length - 1)
       ({ policy := rest, log := c.log ++ p.take n, writes := c.writes + 1 }, n, o)
 
 /-- `writeTo(conn, p, idleTimeout)`: retry after a deadline expiry that made progress -/
